@@ -81,3 +81,24 @@ pub open spec fn counters_have_room(s: SnapshotSummary, bytes: int) -> bool {
     && s.dirs_new < u64::MAX && s.dirs_changed < u64::MAX && s.dirs_unmodified < u64::MAX && s.total_dirs_processed < u64::MAX
     && s.total_bytes_processed + bytes <= u64::MAX && s.total_dirsize_processed + bytes <= u64::MAX
 }
+
+// ---- TreeArchiver::finalize: the root tree of the snapshot ----
+pub struct PackerStatsT { pub _opaque: u64 }
+impl PackerStatsT {
+    // PackerStats::apply: adds the packer's counters to the summary (statistics only)
+    #[verifier::external_body]
+    pub fn apply(self, summary: &mut SnapshotSummary, tpe: BlobTypeT) { unimplemented!() }
+}
+pub enum BlobTypeT { Tree, Data }
+// "Packer::finalize of the tree packer returned Ok" (its meaning -- every pack written and indexed -- is C03's)
+pub uninterp spec fn TREE_PACKER_FINALIZED(added: Seq<(Seq<u8>, TreeId)>) -> bool;
+impl VTreePacker {
+    #[verifier::external_body]
+    pub fn vfinalize(self) -> (r: RusticResult<PackerStatsT>)
+        ensures r is Ok ==> TREE_PACKER_FINALIZED(self.added@),
+    { unimplemented!() }
+}
+impl PathR {
+    #[verifier::external_body]
+    pub fn vnew() -> PathR { unimplemented!() }
+}
